@@ -60,7 +60,8 @@ impl Rewrite<MetaVariable> {
     let edits = find_and_make_edits(nodes, &rules, ctx);
     let rewritten = if let Some(joiner) = &self.join_by {
       let mut ret = vec![];
-      let mut edits = edits.into_iter();
+      // a rewriter fix with expandStart can reach before the rewritten text: skip it, as make_edit does
+      let mut edits = edits.into_iter().filter(|e| e.position >= start);
       if let Some(first) = edits.next() {
         let mut pos = first.position - start + first.deleted_length;
         ret.extend(first.inserted_text);
